@@ -8,11 +8,11 @@
      RInt z   integer reply            (INCR, SETNX, DEL, HINCRBY, LPUSH, LLEN, SADD, SREM, SCARD)
      RBulk z  bulk string holding z    (GET, GETSET, HGET, LPOP)
      RNil     nil bulk                 (GET/GETSET/HGET on a missing key, LPOP on an empty list)
-     ROk      +OK                      (SET)
+     ROk      +OK                      (SET, SET .. NX / XX when the condition holds; nil otherwise)
      RArr l   array of bulk integers   (LRANGE 0 -1; SMEMBERS sorted numerically by the harness)
 
    Transcribes the reply/effect rules of: node/keys.go (getCommand, setCommand, setnxCommand,
-   incr/getset/del via rockredis/t_kv.go Incr, GetSet, SetNX, KVSet, KVDel), rockredis/t_hash.go
+   incr/getset/del via rockredis/t_kv.go Incr, GetSet, SetNX, KVSet, KVSetWithOpts, KVDel), rockredis/t_hash.go
    (HIncrBy, HGet), rockredis/t_list.go (LPush, LPop, LLen, LRange), rockredis/t_set.go (SAdd, SRem,
    SCard, SMembers) — restricted to single-element calls and integer values. *)
 From Coq Require Export List ZArith Bool.
@@ -21,6 +21,8 @@ Open Scope Z_scope.
 
 Inductive op : Type :=
 | OIncr | OGetSet (v : Z) | OSetNX (v : Z) | OGet | OSet (v : Z) | ODel
+| OSetIfAbsent (v : Z)      (* SET k v NX : +OK if the key was absent (and sets it), nil otherwise *)
+| OSetIfPresent (v : Z)     (* SET k v XX : +OK if the key was present (and overwrites it), nil otherwise *)
 | OHIncrBy (d : Z) | OHGet
 | OLPush (v : Z) | OLPop | OLLen | OLDump
 | OSAdd (m : Z) | OSRem (m : Z) | OSCard | OSDump.
@@ -83,6 +85,16 @@ Definition step (s : state) (o : op) : state * res :=
       end
   | OGet => (s, bulk_of (s_kv s))
   | OSet v => (mkState (Some v) (s_hf s) (s_list s) (s_set s), ROk)
+  | OSetIfAbsent v =>
+      match s_kv s with
+      | Some _ => (s, RNil)
+      | None => (mkState (Some v) (s_hf s) (s_list s) (s_set s), ROk)
+      end
+  | OSetIfPresent v =>
+      match s_kv s with
+      | Some _ => (mkState (Some v) (s_hf s) (s_list s) (s_set s), ROk)
+      | None => (s, RNil)
+      end
   | ODel =>
       match s_kv s with
       | Some _ => (mkState None (s_hf s) (s_list s) (s_set s), RInt 1)
